@@ -338,8 +338,8 @@ def op_csum_only(fs, d, r, keep_csum):
         d[fs.off + 1024 + r.choice([0x78 + 3, 0x88 + 1, 0x40])] ^= 0x20
         return "superblock: one covered byte changed, checksum untouched"
     if k == "bitmap":
-        return op_bitmap_block(fs, d, r, False)
-    return op_dirent(fs, d, r, False)
+        return op_bitmap_block(fs, d, r, False) + ", checksum untouched"
+    return op_dirent(fs, d, r, False) + ", checksum untouched"
 
 
 def op_noise(fs, d, r, keep_csum):
@@ -543,7 +543,7 @@ def corrupt(base_path, out_path, r, nops=None, operators=None, directed=None):
         op = r.choice(operators or OPERATORS)
         keep = r.random() < 0.7
         try:
-            desc.append(op(fs, d, r, keep) + (" (checksums re-computed)" if keep and fs.has_csum else ""))
+            desc.append(op(fs, d, r, keep) + (" (checksums re-computed)" if keep and fs.has_csum and op is not op_csum_only else ""))
         except (FormatError, struct.error, IndexError, ValueError) as ex:
             desc.append("operator %s not applicable: %r" % (op.__name__, ex))
     with open(out_path, "wb") as f:
